@@ -7,6 +7,7 @@ calls with repetition, executed in one pristine fork; every call must return its
 and leave a structural fingerprint of its argument unchanged.
 """
 import collections
+import dataclasses
 import json
 import reprlib
 import os
@@ -173,6 +174,46 @@ class Weird:
         return '<weird, not an expression>'
 
 
+
+@dataclasses.dataclass
+class DPoint:
+    x: int
+    y: int = 0
+    tags: list = dataclasses.field(default_factory=list)
+    hidden: int = dataclasses.field(default=1, repr=False)
+
+
+try:
+    import attr as _attr
+
+    @_attr.s
+    class APoint:
+        x = _attr.ib()
+        y = _attr.ib(default=0)
+        tags = _attr.ib(factory=list)
+except ImportError:      # pragma: no cover
+    APoint = None
+
+
+class IPy:
+    """implements IPython's _repr_pretty_ protocol"""
+
+    def __init__(self, items):
+        self.items = items
+
+    def _repr_pretty_(self, p, cycle):
+        with p.group(4, 'IPy(', ')'):
+            for i, x in enumerate(self.items):
+                if i:
+                    p.text(',')
+                    p.breakable()
+                p.pretty(x)
+
+
+class Gauge:
+    """its printer returns a contextual document whose evaluator raises at layout time"""
+
+
 class Holder:
     """unregistered; its __repr__ calls pformat(self.target) - a print nested inside the print that is
     showing the Holder, of a container that is on the outer print's active path. The nested call is
@@ -326,9 +367,27 @@ def build_corpus():
     add('str_odd_chars', 'odd', ['\u2603 snowman', 'tab\there', 'nul\x00', 'quote\'"both', '\\backslash', '\U0001f600'], dict(width=20))
     add('memo_doc', 'memo', HMemo())
     add('memo_doc_nested', 'memo', {'m': [HMemo(), HMemo()]}, dict(width=30))
+    add('memo_doc_w50', 'memo', HMemo(), dict(width=50))
+    add('memo_doc_w120', 'memo', [HMemo()], dict(width=120, ribbon_width=100))
     # a struct sequence whose repr cannot be parsed for field names, next to healthy ones of the same class
     add('struct_unparsable', 'cache', time.struct_time((Weird(), 1, 1, 0, 0, 0, 0, 1, -1)), idfree=True)
     add('struct_after_unparsable', 'cache', time.struct_time((1999, 1, 1, 0, 0, 0, 4, 1, -1)), dict(width=40))
+    add('dataclass', 'extras', DPoint(1, 2, ['a']))
+    add('dataclass_defaults', 'extras', [DPoint(3), DPoint(4, 0, [])], dict(width=20))
+    if APoint:
+        add('attrs', 'extras', APoint(1, 2, ['a']))
+        add('attrs_defaults', 'extras', {'p': APoint(3)})
+    add('ipython_protocol', 'extras', IPy([1, [2, 3], IPy(['x' * 30, 'y' * 30])]), dict(width=40))
+    # every family once more AT the depth limit (lazily built constants must not be built under it)
+    for it in list(c):
+        if it['family'] in ('time', 'collections', 'lazy', 'cache', 'container', 'scalar', 'str', 'extras', 'harness') \
+                and 'depth' not in it['kw'] and not it['name'].startswith('h_bad'):
+            add(it['name'] + '@depth2', it['family'], [it['value']], dict(it['kw'], depth=2), idfree=it['idfree'])
+            add(it['name'] + '@depth1', it['family'], [it['value']], dict(it['kw'], depth=1), idfree=it['idfree'])
+    add('timedelta_400', 'time', datetime.timedelta(days=400))
+    # a print abandoned at layout time, followed by a print that allocates the same shapes again
+    add('layout_raises', 'abort', ['early-%03d' % i for i in range(300)] + [Gauge()], dict(width=50), idfree=False)
+    add('after_layout_raises', 'abort', ['later-%03d' % i for i in range(300)], dict(width=50))
     task = Task()
     add('task_owner', 'reentrant', task.owner, idfree=False)
     add('task', 'reentrant', {'t': task}, idfree=False)
@@ -405,7 +464,10 @@ def build_corpus():
 
 
 def register_harness():
-    from prettyprinter import register_pretty, pretty_call
+    from prettyprinter import register_pretty, pretty_call, install_extras
+    # bundled extras: predicate printers with their own module state
+    install_extras(include=['dataclasses', 'ipython_repr_pretty'] + (['attrs'] if APoint else []),
+                   raise_on_error=True)
 
     @register_pretty(HBase.__module__ + '.' + HBase.__qualname__)
     def pb(v, ctx):
@@ -453,9 +515,16 @@ def register_harness():
             # a group whose Concat has a forced-break child: the break must survive every normalisation
             memo['doc'] = _group(_concat([
                 'HMemo(',
-                always_break(_concat([_nest(4, _concat([_SOFTLINE, 'a=1,', _LINE, 'b=2'])), _SOFTLINE])),
+                always_break(_concat([_nest(4, _concat([_SOFTLINE, 'a=1,', _LINE, contextual(
+                    lambda indent, column, page_width, ribbon_width: 'page_width=%d' % page_width)])), _SOFTLINE])),
                 ')']))
         return memo['doc']
+
+    @register_pretty(Gauge)
+    def pgauge(v, ctx):
+        def evaluator(indent, column, page_width, ribbon_width):
+            raise RuntimeError('gauge cannot be laid out')
+        return contextual(evaluator)
 
     @register_pretty(HTcOnce)
     def ptc_once(v, ctx, trailing_comment=None):
